@@ -78,3 +78,59 @@ Proof.
         (conj (proj2 (proj2 premul_blend_Saturation_refuted)) (proj2 (proj2 premul_blend_Luminosity_refuted))))).
 Qed.
 Print Assumptions C07_nonseparable_blends_refuted.
+
+(* ---- the compositor and every DrawTarget operation (TotalProofs.v) ---- *)
+Require Import RQ.PremulDraw RQ.TotalProofs.
+
+(* (8) the only errors the pixel functions can raise at all are the two dependency errors of (7) *)
+Theorem C07_blend_error_class : forall m s d e, blend m s d = Err e -> e = PixelOverflow \/ e = DebugAssert.
+Proof. exact blend_err_class. Qed.
+Print Assumptions C07_blend_error_class.
+
+(* (9) composite - the one routine through which every drawing call writes pixels (span blitters, clip mask rows,
+   coverage mask rows, layer-relative destination rows): on a well-formed target, with a premultiplied source and a
+   coverage mask that covers its own rectangle, it returns for ANY rectangle (inside, outside, inverted), transform
+   (singular, NaN), alpha and separable blend mode, and the target stays well formed *)
+Theorem C07_composite_total : forall st src mask mr rect0 blend alpha,
+  dt_wf st -> source_ok src -> mask_ok mask -> mask_fits mask mr -> In blend separable_modes ->
+  exists st', composite st src mask mr rect0 blend alpha = Ok st' /\ dt_wf st'.
+Proof. exact composite_total_separable. Qed.
+Print Assumptions C07_composite_total.
+
+(* (10) every one of the 15 operations, inside its documented preconditions (op_in_range: premultiplied sources, data
+   lengths matching sizes, pops matching pushes, and the three i32 sums x+w / x+mw / surface-call coordinates within
+   range), returns Ok and keeps the target well formed, or raises one of the two dependency errors - PROVIDED the
+   rasteriser run it makes (if any) returns (op_raster_ok; discharged for straight edges by (3)).  This is the _partial
+   part: rasterize for curve edges is not yet proved total. *)
+Theorem C07_every_operation_total_partial : forall st o, dt_wf st -> op_in_range st o -> op_raster_ok st o ->
+  (exists st', step_op st o = Ok st' /\ dt_wf st') \/ step_op st o = Err PixelOverflow \/ step_op st o = Err DebugAssert.
+Proof. exact step_op_total_any_mode. Qed.
+Print Assumptions C07_every_operation_total_partial.
+
+(* (11) operations that never reach the rasteriser (set_transform, push_clip_rect, pop_clip, push_layer, pop_layer,
+   clear without clip, mask, fill_rect / draw_image on the integer fast route, copy_surface, blend_surface and blend_surface_with_alpha) with a
+   separable blend mode: unconditional *)
+Theorem C07_non_rasterising_operations_total : forall st o,
+  dt_wf st -> op_in_range st o -> op_no_raster st o = true -> op_separable st o ->
+  exists st', step_op st o = Ok st' /\ dt_wf st'.
+Proof. exact step_op_total_no_raster. Qed.
+Print Assumptions C07_non_rasterising_operations_total.
+
+(* (12) whole programs from a fresh target *)
+Theorem C07_programs_total_partial : forall strict w h buf ops,
+  0 <= w <= i32_max -> 0 <= h <= i32_max -> w * h <= i32_max -> zlen buf = w * h -> Forall px_ok buf ->
+  run_ok strict (dt_new w h buf) ops ->
+  match run_ops (dt_new w h buf) ops with
+  | Ok st' => dt_wf st' /\ all_premul st' /\ exists g, clip_inv st' g
+  | Err e => strict = false /\ (e = PixelOverflow \/ e = DebugAssert)
+  end.
+Proof. exact run_ops_total_fresh. Qed.
+Print Assumptions C07_programs_total_partial.
+
+(* (13) image sources: under the documented precondition (non-empty, data length = width * height) every texel fetch
+   of both extend modes is an in-range read *)
+Theorem C07_image_fetch_in_range : forall im x y, image_wf im ->
+  (exists x' y', pad_fetch im x y = img_at im x' y' /\ in_img im x' y') /\
+  (exists x' y', repeat_fetch im x y = img_at im x' y' /\ in_img im x' y').
+Proof. intros im x y H. split; [exact (pad_fetch_in_range im x y H)|exact (repeat_fetch_in_range im x y H)]. Qed.
+Print Assumptions C07_image_fetch_in_range.
